@@ -53,6 +53,16 @@ def run(res, tier, seed, broken):
             res.count(k, v)
         bad = bad + out["bad"]
 
+    # operator-level histories: every public operator on failing functions, canaries and process-global state after each
+    out3, e3 = C.run_impl("impl_c19c.py", {"seed": seed, "n": 64 if big else 40})
+    if out3 is None:
+        broken = broken + [{"obligation": "operator-history oracle failed to run", "log": (e3 or "")[-3000:]}]
+    else:
+        res.add_cases(out3["n"], out3["keys"], [])
+        for k, v in out3["dist"].items():
+            res.count(k, v)
+        bad = bad + [dict(b, exp=b["operator"], top_before=0) for b in out3["bad"]]
+
     def hunt():
         for k in range(6 if big else 2):
             b, _, _ = history(res, "c19_hunt%d" % k, seed + 50 + k, 500)
